@@ -20,12 +20,13 @@ func init() { zz.Register("ZZ_C05_network", ZZ_C05_network) }
 // zzWorldNet: n real Handlers (beacon.NewHandler: ticker, run loop, aggregator, sync manager, store stack over
 // the in-memory back-end) joined by an in-process network with per-link up/down switches, on one fake clock.
 type zzWorldNet struct {
-	nw    *zzNet
-	hs    []*Handler
-	addrs []string
-	up    [][]bool
-	clk   *zzfake.Clock
-	sent  []zzNetPartial
+	nw     *zzNet
+	hs     []*Handler
+	addrs  []string
+	up     [][]bool
+	clk    *zzfake.Clock
+	sent   []zzNetPartial
+	stores []*memdb.Store
 }
 
 type zzNetPartial struct {
@@ -110,11 +111,13 @@ func zzNewWorldNet(n, t int, startUnix int64) *zzWorldNet {
 	}
 	for i := 0; i < n; i++ {
 		conf := &Config{Public: nw.group.Nodes[i], Share: nw.ep.Share(nw.sch, i), Group: nw.group, Clock: w.clk}
-		h, err := NewHandler(context.Background(), &zzNetClient{w, i}, memdb.NewStore(200), conf, zzfake.Logger(), common.GetAppVersion())
+		st := memdb.NewStore(200)
+		h, err := NewHandler(context.Background(), &zzNetClient{w, i}, st, conf, zzfake.Logger(), common.GetAppVersion())
 		if err != nil {
 			panic(err)
 		}
 		w.hs = append(w.hs, h)
+		w.stores = append(w.stores, st)
 	}
 	return w
 }
@@ -171,7 +174,7 @@ func ZZ_C05_network() {
 		zz.Assert("healthy_network_produces_every_due_round", w.head(i) == 2)
 	}
 	// phase 2: the outage
-	shape := zz.Choose("outage.shape", 5)
+	shape := zz.Choose("outage.shape", 6)
 	victim := zz.Choose("outage.victim", n)
 	outage := 1 + zz.Choose("outage.rounds", zz.Param("max_outage", 2))
 	switch shape {
@@ -188,6 +191,9 @@ func ZZ_C05_network() {
 			}
 		}
 	case 3: // no fault
+	case 5: // the victim's process stops; it is restarted over its own store when the outage ends (Catchup)
+		w.hs[victim].Stop(context.Background())
+		w.isolate(victim, true)
 	case 4: // like 0, and when the victim comes back ANOTHER node goes away for good (stop / permanent partition):
 		// the returning node, exactly `outage` rounds behind, and the remaining ones must form the threshold
 		w.isolate(victim, true)
@@ -196,12 +202,12 @@ func ZZ_C05_network() {
 		w.advance(period)
 	}
 	connected := n
-	if shape == 0 || shape == 2 || shape == 4 {
+	if shape == 0 || shape == 2 || shape == 4 || shape == 5 {
 		connected = n - 1
 	}
 	if shape != 1 && connected >= t {
 		for i := 0; i < n; i++ {
-			if (shape == 0 || shape == 4) && i == victim {
+			if (shape == 0 || shape == 4 || shape == 5) && i == victim {
 				continue
 			}
 			zz.Assert("connected_threshold_keeps_producing_during_the_outage", w.head(i) == clockRound())
@@ -213,7 +219,19 @@ func ZZ_C05_network() {
 		}
 	}
 	// phase 3: heal (one node possibly one round later than the rest)
-	late := zz.Bool("heal.victim_one_round_late")
+	if shape == 5 {
+		// restart: a new handler over the surviving store, as the daemon does after a restart
+		conf := &Config{Public: nw.group.Nodes[victim], Share: nw.ep.Share(nw.sch, victim), Group: nw.group, Clock: w.clk}
+		h, err := NewHandler(context.Background(), &zzNetClient{w, victim}, w.stores[victim], conf, zzfake.Logger(), common.GetAppVersion())
+		if err != nil {
+			panic(err)
+		}
+		w.hs[victim] = h
+		w.isolate(victim, false)
+		h.Catchup(context.Background())
+		zz.Quiesce()
+	}
+	late := shape != 5 && zz.Bool("heal.victim_one_round_late")
 	for i := 0; i < n; i++ {
 		if !(late && i == victim) {
 			w.isolate(i, false)
